@@ -70,8 +70,8 @@ step_bin_all!(5,
     step_imp_strict_n5, imp_strict_edge, |a, b| !a & b;
 );
 step_not!(step_not, 5);
-step_ite!(step_ite, 3);
-step_ite!(step_ite_n4, 4);
+step_ite!(step_ite, 4);
+step_ite!(step_ite_n5, 5);
 step_restrict!(step_restrict, 4, 2, 4);
 step_restrict!(step_restrict_l3, 4, 3, 5);
 step_quant!(step_forall, forall_edge, Q::Forall, 4);
